@@ -33,11 +33,13 @@ CHECKS = {
 	},
 	'C06': {
 		'category': 'model_checking',
-		'technique': 'bounded symbolic execution (CrossHair + z3) of header extraction with a JSON codec stub, of the regeneration decision and of the output-path mapping',
-		'text': 'Header and path sentences. For every single-line JSON text J (symbolic, bounded) and every rest-of-file text, the header written through to_header_str + the first template line is handed back to the decoder exactly; '
-			'can_transpile is true iff there is no old header or one of its five components differs; two distinct dotted module paths never map to the same output path under three output_dirs configurations (glob rules: closed obligation).',
+		'technique': 'bounded symbolic execution (CrossHair + z3) of header extraction with a JSON codec stub, of the regeneration decision (also over all import graphs of 4 modules, failing steps replayed through the real command-line application) and of the output-path mapping; closed run / run -f histories',
+		'text': 'For every single-line JSON text J (symbolic, bounded) and every rest-of-file text, the header written through to_header_str + the first template line is handed back to the decoder exactly; '
+			'can_transpile is true iff there is no old header or one of its five components differs; after a run and an edit of module x, x itself is selected for regeneration over every acyclic import graph of 4 modules (importers of x are not: listed finding, demonstrated through TranspileApp); '
+			'two distinct dotted module paths never map to the same output path under three output_dirs configurations (glob rules: closed obligation). Closed: edit / delete-output / upgrade / run / run -f histories of generated module graphs through the real TranspileApp, '
+			'files after `run` compared with files after `run -f` at every run, unedited modules keep their file untouched.',
 		'design_ref': 'DESIGN.md section 2, C06',
-		'note': 'json inside header.py is stubbed as an arbitrary single-line codec (CrossHair cannot close json on symbolic strings); md5 collision-freeness assumed. The history quantifier is outside. ' + NOTE_COMMON,
+		'note': 'json inside header.py is stubbed as an arbitrary single-line codec (CrossHair cannot close json on symbolic strings); md5 collision-freeness assumed; graphs of <= 4 modules; histories of the listed families; generated-module caches dropped before every run (C05). ' + NOTE_COMMON,
 	},
 	'C07': {
 		'category': 'model_checking',
